@@ -898,6 +898,8 @@ class FitBase(FileIOMixin, object):
                 relative=relative,
             )
         )
+        # the list is changed in place: its node and everything depending on it must be recalculated
+        self._nexus.get("parameter_constraints").mark_for_update()
         self._fit_param_names_bad_default = self._fit_param_names_bad_default.difference(names)
 
     def add_parameter_constraint(self, name, value, uncertainty, relative=False):
@@ -913,6 +915,8 @@ class FitBase(FileIOMixin, object):
         except ValueError as _e:
             raise ValueError("Unknown parameter name: %s" % name) from _e
         self._fit_param_constraints.append(GaussianSimpleParameterConstraint(index=_index, value=value, uncertainty=uncertainty, relative=relative))
+        # the list is changed in place: its node and everything depending on it must be recalculated
+        self._nexus.get("parameter_constraints").mark_for_update()
         self._fit_param_names_bad_default.discard(name)
 
     def get_matching_errors(self, matching_criteria=None, matching_type="equal"):
